@@ -35,7 +35,7 @@ Definition b58_ok (s : list N) : bool := nonempty_all is_b58 s.             (* ^
 Record tconf := TConf { t_issuer : option (list N); t_feesetter : option (list N);
                         t_feeaddrsetter : option (list N); t_redeemer : option (list N) }.
 Record cconf := CConf { k_symbol : list N; k_robot : list N; k_admin : option (list N); k_token : option tconf;
-                        k_noswaps : bool (* options.disable_swaps; the legacy positional form has no options *) }.
+                        k_noswaps : bool; k_nomulti : bool (* options.disable_swaps / disable_multi_swaps; the legacy positional form has no options *) }.
 
 Definition wallet_ok (w : option (list N)) : bool := match w with None => true | Some a => b58_ok a end.
 
@@ -69,13 +69,13 @@ Definition from_args (kind : N) (chan : list N) (args : list (list N)) : option 
   let sym := upper chan in
   match kind with
   | 1%N => if negb (length args =? 3)%nat || negb (nonempty (arg args 2)) then None
-           else Some (CConf sym (arg args 1) (Some (arg args 2)) (Some (TConf (Some (arg args 2)) None None None)) false)
+           else Some (CConf sym (arg args 1) (Some (arg args 2)) (Some (TConf (Some (arg args 2)) None None None)) false false)
   | 2%N => if negb (length args =? 4)%nat || negb (nonempty (arg args 2)) || negb (nonempty (arg args 3)) then None
-           else Some (CConf sym (arg args 1) (Some (arg args 3)) (Some (TConf (Some (arg args 2)) None None None)) false)
+           else Some (CConf sym (arg args 1) (Some (arg args 3)) (Some (TConf (Some (arg args 2)) None None None)) false false)
   | 3%N => if negb (length args =? 5)%nat || negb (nonempty (arg args 2)) || negb (nonempty (arg args 3)) || negb (nonempty (arg args 4)) then None
-           else Some (CConf sym (arg args 1) (Some (arg args 2)) (Some (TConf (Some (arg args 2)) (Some (arg args 3)) (Some (arg args 4)) None)) false)
+           else Some (CConf sym (arg args 1) (Some (arg args 2)) (Some (TConf (Some (arg args 2)) (Some (arg args 3)) (Some (arg args 4)) None)) false false)
   | 4%N => if negb (length args =? 4)%nat || negb (nonempty (arg args 2)) || negb (nonempty (arg args 3)) then None
-           else Some (CConf sym (arg args 1) (Some (arg args 2)) (Some (TConf (Some (arg args 2)) (Some (arg args 3)) None None)) false)
+           else Some (CConf sym (arg args 1) (Some (arg args 2)) (Some (TConf (Some (arg args 2)) (Some (arg args 3)) None None)) false false)
   | _ => None
   end.
 
